@@ -537,6 +537,15 @@ func genEmail(e *emitter, rng *rand.Rand, thorough bool) {
 			e.emit(local + "@b.c")
 		}
 	}
+	// MANY labels / many dots: up to 127 one-byte labels fit into 253 bytes (valid); more dots than any valid domain has
+	// (empty labels: invalid) — a fixed-size table of label offsets is exactly 127 entries long
+	for _, k := range []int{100, 120, 125, 126, 127, 128, 129, 130, 200, 250, 251, 252} {
+		e.emit("x@a" + strings.Repeat(".", k) + "a")
+		e.emit("x@" + strings.Repeat("a.", k) + "a")
+		e.emit("x@" + strings.Repeat("a.", k/2) + "bc")
+		e.emit("x@" + strings.Repeat(".", k))
+		e.emit(strings.Repeat("a.", 31) + "b@" + strings.Repeat("a.", k) + "a")
+	}
 	// a single over-long label in first, middle or last position (the others short), 2..8 labels
 	for _, long := range []int{62, 63, 64, 65, 100, 200} {
 		for nl := 2; nl <= 8; nl++ {
